@@ -23,15 +23,22 @@ def run(chk):
     rng = chk.rng
     roles = [b"origin", b"maint", b"archive"]
     base = []
+    forged_pkgs = []
     for cenc, denc in ((".gz", ".xz"), ("", ""), (".xz", ".gz"), (".bz2", ".zst")):
         for key in (0, 1):
             role = rng.choice(roles)
-            buf, info = debpkg.build(chk, rng, cenc, denc)
+            # debian-binary may carry further lines after "2.0" (deb(5)); they are part of what is signed
+            binary = b"2.0\n" if key == 0 else b"2.0\nminor-format-note\n"
+            buf, info = debpkg.build(chk, rng, cenc, denc, binary=binary)
             ms = info["ms"]
             signed = ms[0]["data"] + ms[1]["data"] + ms[2]["data"]
             sig = bytes.fromhex(chk.run_impl([("sigmake", [str(key).encode(), signed])])[0][1:])
             ms2 = ms + [debpkg.member(b"_gpg" + role, sig)]
             base.append((argen.render(ms2), ms2, role, key))
+            if binary != b"2.0\n":
+                # a signature over "2.0\n" + control + data only: it does NOT cover the member that is there
+                forged = bytes.fromhex(chk.run_impl([("sigmake", [str(key).encode(), b"2.0\n" + ms[1]["data"] + ms[2]["data"]])])[0][1:])
+                forged_pkgs.append((argen.render(ms + [debpkg.member(b"_gpg" + role, forged)]), role, key))
     cases, tags = [], []
     for buf, ms, role, key in base:
         other = (key + 1) % 3
@@ -62,6 +69,8 @@ def run(chk):
                 cases.append((argen.render(d), role, str(key))); tags.append("decoy-members")
         # unsigned: no _gpg member
         cases.append((argen.render(ms[:3]), role, str(key))); tags.append("no-signature-member")
+    for fbuf, role, key in forged_pkgs:
+        cases.append((fbuf, role, str(key))); tags.append("signature-over-other-debian-binary")
     bufs = [c[0] for c in cases]
     tables, mem = oracle_args(chk, bufs)
     # the signature oracle on debian-binary ++ control ++ data of the unique members
@@ -96,7 +105,7 @@ def run(chk):
                 why = "the reported signer is not the verifying entity"
             elif i.endswith("payload-broken"):
                 why = "after a successful verification the payload stream exposed by the loader is no longer readable"
-            if tag in ("decoy-members", "no-signature-member"):   # (a corrupted byte may leave the signature packet valid: the oracle decides)
+            if tag in ("decoy-members", "no-signature-member", "signature-over-other-debian-binary"):   # (a corrupted byte may leave the signature packet valid: the oracle decides)
                 why = why or "verification succeeded on a package with %s" % tag
         if why:
             chk.violate({"kind": "property", "case": lib.show_case(("debsig", [b"<%d bytes>" % len(c[0]), c[1], c[2].encode()])), "impl": i, "tag": tag, "explanation": why})
